@@ -64,12 +64,15 @@ claim("C12", P,
       ASSUME + "float32 rounding out of reach; inverse and distance-preservation are lemmas over the builders' postconditions.", "DESIGN.md §3 C12, §9")
 claim("C13", P,
       "Every closed form (sphere, cap, frustum, two-sphere lens and union, sphere-frustum concentric intersection) is proved equal to its solid-of-revolution integral spec on every path, over the reals with pi abstract; "
-      "find_sphere_line_intersection / project_point_on_line / find_unit_vector_on_plane against geometric contracts." + BOUNDED,
-      ASSUME + "eps tolerance band collapsed (eps=0); np.isclose over the reals; integral specs are trusted definitions cross-checked by quadrature in the bounded part.", "DESIGN.md §3 C13, §9")
+      "sphere-frustum union by inclusion-exclusion; the sphere-frustum forms in an ARBITRARY pose (symbolic centre, unit axis) with np.allclose modelled faithfully (|a-b| <= atol + rtol|b|) and the library's eps; "
+      "find_sphere_line_intersection / project_point_on_line against geometric contracts, find_unit_vector_on_plane against its purpose (unit, orthogonal, every non-zero normal)." + BOUNDED,
+      ASSUME + "the library's own tolerance bands are explicit pose-independent clauses (radius bands: one of two stated values; the band 1 < t <= 1+eps is a precondition); np.random.rand in [0,1)^3 with one named "
+      "almost-sure requirement; integral specs are trusted definitions cross-checked by quadrature in the bounded part.", "DESIGN.md §3 C13, §9; docs/w3/c13c14.md")
 claim("C14", P,
       "get_volume (level names, range assert, dispatch) and the per-node closure `leave` (accuracy symbolic 1..9, 0-3 children): volume grows by sphere + [>=2] frusta - [>=3] the two sphere-frustum intersections per child, no sphere-sphere term; "
       "21 union lemmas (lens inside the frustum, piecewise max profile = closed forms) tie the increment to the measure of the union of one compartment; C13 carriers re-verified." + BOUNDED,
-      ASSUME + "the taper half of VolSphereFrustumConeIntersection._get_volume and the Monte-Carlo objects are assumed contracts (general radii at levels >= 3 are relative to them); summation over the traversal is bounded only.", "DESIGN.md §3 C14, §9")
+      ASSUME + "the Monte-Carlo objects (levels >= 5 with >= 2 children, level 10) are assumed contracts; both taper directions of the sphere-frustum intersection are verified (C13) with faithful tolerances, "
+      "the library's tolerance bands being a pose-independent precondition per compartment (ghost predicate, radii and squared length only).", "DESIGN.md §3 C14, §9; docs/w3/c13c14.md")
 claim("C15", P,
       "The recursive-descent parser is proved over an abstract token stream with a ghost bracket depth: _parse_node accepts exactly FLOATx4 ')', _parse_split returns only after the ')' matching its '(', _parse_subtree stops at the '|'/')' of its own level, "
       "_parse returns normally only at depth 0 after the final ')' (premature end raises), parse converts every failure to ValueError; walk_ast (iterative, no recursion) allocates ids in document order with the enclosing NODE as parent and the TREE label as type." + BOUNDED,
